@@ -167,8 +167,16 @@ def main():
         },
         "engines": [
             {"name": "E1 xplore", "path": "include/vp/xplore.hpp", "serves_properties": sorted(CHECKS), "kind_free_text": "deterministic enumerators (extent vectors, coordinates, cartesian alphabets)"},
-            {"name": "E2 probe backends", "path": "include/vp/probe.hpp", "serves_properties": ["C01"], "kind_free_text": "user-defined primitive backends owning the storage cells"},
-            {"name": "runner", "path": "vplib/core.py", "serves_properties": [c["property_id"] for c in checks], "kind_free_text": "rebuilds every harness from /repo's working tree on every run, runs, harvests, writes evidence, matches known findings"},
+            {"name": "E2 probe backends", "path": "include/vp/probe.hpp", "serves_properties": ["C01", "C02", "C10", "C11", "C13", "C16", "C17", "C18"], "kind_free_text": "user-defined primitive backends owning the storage cells (access hook = scheduling point / bounds monitor; query-counting function backend)"},
+            {"name": "E3 reference models", "path": "include/vp/interp.hpp", "serves_properties": ["C02", "C15", "C17"], "kind_free_text": "reference interpreter of a runtime stack description, reference curves, binary128 interpolant (harness/c03_linear.cpp), integer affine algebra (harness/c09_affine.cpp)"},
+            {"name": "E4 stack grammar", "path": "vplib/grammar.py", "serves_properties": ["C02", "C06", "C07", "C08", "C13", "C15", "C17", "C20"], "kind_free_text": "layer grammar, kind inference, enumeration to a depth, coordinate-sensitive adjacency cover, C++ type/configuration/description generators, view-size model"},
+            {"name": "E5 scheduler + explorer", "path": "include/vp/sched.hpp", "serves_properties": ["C16"], "kind_free_text": "cooperative futex hand-off scheduler over real pthreads, preemption-bounded depth-first schedule enumeration with replay; optional function-entry scheduling points via -finstrument-functions"},
+            {"name": "E6 fault stream", "path": "include/vp/io.hpp", "serves_properties": ["C06", "C07", "C08"], "kind_free_text": "fault-injecting streambuf, bit-pattern and narrowing alphabets, software round-to-nearest-even, type-erased per-stack IO entries"},
+            {"name": "E7 format automaton", "path": "include/vp/format.hpp", "serves_properties": ["C06", "C07", "C08"], "kind_free_text": "independent pushdown reader of the on-disk format, labels every word with its role"},
+            {"name": "E8 allocation ledger", "path": "include/vp/ledger.hpp", "serves_properties": ["C12", "C15"], "kind_free_text": "replaced operator new/delete with headers and quarantine: leaks, double and foreign frees per history"},
+            {"name": "history explorer", "path": "harness/c12_history.cpp", "serves_properties": ["C12", "C15"], "kind_free_text": "explicit-state BFS over operation histories with canonical-state de-duplication, replay on fresh objects, watchdog"},
+            {"name": "CUDA runtime shim", "path": "include/cuda_shim/cuda_runtime_api.h", "serves_properties": ["C05", "C13"], "kind_free_text": "host implementation of the five CUDA runtime calls lib/cuda uses; device memory ASan-poisoned for host access"},
+            {"name": "runner", "path": "vplib/core.py", "serves_properties": [c["property_id"] for c in checks], "kind_free_text": "rebuilds every harness from /repo's working tree on every run, runs, harvests, writes evidence, matches known findings, deadline handling"},
         ],
         "checks": checks,
         "not_applicable": na,
